@@ -252,6 +252,39 @@ def check(ctx):
                             r3.bad(V(r3.id, fid, "mapping-key-derived", "the key looked up in type_mappings is not the type's name itself but %s" % f.describe_origin(ko, deep=2)[:120], c.file, c.line))
                     else:
                         r3.bad(V(r3.id, fid, "mapping-access:%s" % short_path(c.path), "type_mappings is consulted through %s (not an exact-key lookup)" % c.path, c.file, c.line))
+    # ... and the table that is looked up is the table the user wrote: wherever GenerateConfig.type_mappings is assigned in the crate, the value is a whole
+    # table taken from somewhere (deserialised, cloned, moved), never one rebuilt entry by entry — a loader that "normalises" the keys (strips blanks,
+    # changes case) makes `Id<Doc, Uuid>` unreachable by the exact-name lookup above
+    REBUILD = {"collect", "from_iter", "insert", "extend", "retain", "remove", "split_whitespace", "trim", "replace", "to_lowercase", "to_uppercase", "map", "filter", "filter_map", "into_iter", "iter", "drain"}
+    n_as = 0
+    for fid in sorted(P.fns):
+        f = P.fns[fid]
+        if "{promoted#" in fid or not fid.startswith(("tauri_typegen::", "cargo_tauri_typegen::", "<tauri_typegen::")):
+            continue
+        sites_ = []
+        for b_ in sorted(f.reach_blocks):
+            for st in f.blocks[b_]["stmts"]:
+                pj = (st.get("lhs") or {}).get("p", [])
+                if pj and pj[-1].get("k") == "field" and pj[-1].get("name") == "type_mappings" and pj[-1].get("adt", "").endswith("GenerateConfig") and st.get("rv"):
+                    rv_ = st["rv"]
+                    ops_ = rv_.get("ops", []) if rv_.get("k") == "aggr" else ([rv_["op"]] if rv_.get("k") in ("use", "cast") else [])
+                    sites_.append((st, ops_))
+            t_ = f.blocks[b_]["term"]
+            if t_["k"] == "call":
+                pj = t_["dest"].get("p", [])
+                if pj and pj[-1].get("k") == "field" and pj[-1].get("name") == "type_mappings" and pj[-1].get("adt", "").endswith("GenerateConfig"):
+                    sites_.append(({"line": (t_.get("span") or {}).get("line")}, t_["args"]))
+        for st, ops_ in sites_:
+            n_as += 1
+            fed = set()
+            for a_ in ops_:
+                fed |= f.feeding_calls(a_, depth=6)
+            rb = sorted(x.split("::")[-1] for x in fed if x.split("::")[-1] in REBUILD)
+            if rb:
+                r3.bad(V(r3.id, fid, "mappings-rebuilt:%s" % ",".join(rb), "%s assigns GenerateConfig.type_mappings a table rebuilt through %s: keys the user wrote may no longer be the keys that are looked up"
+                         % (short_path(fid), ", ".join(rb)), f.file, st.get("line")))
+            else:
+                r3.ok("%s: type_mappings assigned as a whole" % short_path(fid))
     r3.require_floor(3, "mapping lookups")
     rules.append(r3)
 
